@@ -1,6 +1,7 @@
 /-
 C07 — admission of a transaction into the memory pool, as written now.
 
+  pkg/core/transaction/transaction.go:156-198,458-502   decodeHashableFields limits, isValid (well-formedness)
   pkg/core/blockchain.go:2920-2926   verifyAndPoolOffChainTx (SystemFee ≤ MaxBlockSystemFee)
   pkg/core/blockchain.go:2931-3006   verifyAndPoolTx (decision sequence)
   pkg/core/blockchain.go:3010-3028   CalculateAttributesFee
@@ -25,6 +26,7 @@ open NeoModel.Generated.FeeConsts
 
 /-- error classes, in the order the checks can produce them. -/
 inductive Err where
+  | malformed           -- the decoder rejects the bytes (transaction.isValid, counts)
   | policySysFee        -- ErrPolicy: SystemFee > MaxBlockSystemFee (blockchain.go:2922)
   | invalidScript       -- ErrInvalidScript
   | expired             -- ErrTxExpired
@@ -90,6 +92,8 @@ structure Signer where
 
 structure Tx where
   hash : Nat
+  version : Nat
+  scriptLen : Nat       -- len(t.Script)
   scriptOk : Bool       -- scparser.IsScriptCorrect(t.Script) == nil
   sysFee : Nat
   netFee : Nat
@@ -203,6 +207,22 @@ def poolAdd (p : Pool) (t : Tx) : Option Err :=
   else if p.full then some .oom
   else none
 
+def allDistinct : List Nat → Bool
+  | [] => true
+  | a :: l => !l.contains a && allDistinct l
+
+/-- what every decoder enforces before a `Transaction` exists (decodeHashableFields: 1 ≤ signers ≤ 16,
+attributes ≤ 16 − signers, script ≤ 65535 bytes; isValid: version 0, unique signers, at most one attribute of
+every type except Conflicts, non-empty script). The sign / overflow checks of the two fees are not
+representable here (fees are naturals). -/
+def wellFormed (t : Tx) : Bool :=
+  t.version == 0
+    && !t.signers.isEmpty && decide (t.signers.length ≤ maxAttributes)
+    && decide (t.attrs.length + t.signers.length ≤ maxAttributes)
+    && allDistinct (t.signers.map (·.account))
+    && allDistinct ((t.attrs.filter fun a => a.typ != attrConflicts).map (·.typ))
+    && t.scriptLen != 0 && decide (t.scriptLen ≤ maxScriptLength)
+
 /-- `verifyAndPoolOffChainTx` = what `PoolTx` / `VerifyTx` do; `none` = accepted into the pool. -/
 def admit (c : Chain) (p : Pool) (t : Tx) : Option Err :=
   if t.sysFee > c.maxBlockSysFee then some .policySysFee
@@ -223,11 +243,15 @@ def admit (c : Chain) (p : Pool) (t : Tx) : Option Err :=
           if !verifyAttrs c t then some .invalidAttr
           else poolAdd p t
 
+/-- bytes from a peer or an RPC client: decode, then `PoolTx`. -/
+def admitWire (c : Chain) (p : Pool) (t : Tx) : Option Err :=
+  if !wellFormed t then some .malformed else admit c p t
+
 /-! ### block packing: `ApplyPolicyToTxSet` (blockchain.go:2840-2874) -/
 
 /-- the limits and the size of a block without transactions and without the transaction count prefix
-(`GetExpectedBlockSizeWithoutTransactions(0) - 1` for the default block witness; as written it does not
-count `PrevStateRoot`). -/
+(`GetExpectedBlockSizeWithoutTransactions(0) - 1` for the default block witness and the header template,
+whose `StateRootEnabled` follows `StateRootInHeader` since fix 2cbe22b). -/
 structure PackCfg where
   maxTx : Nat            -- MaxTransactionsPerBlock, 0 = unlimited
   maxBlockSize : Nat
